@@ -2580,3 +2580,21 @@ package otto
 //@   stable call.ArgumentList
 //@   abstract_callee (Value).call, (Value).bool, getValueOfArrayIndex
 //@   at_call (Value).call : arg0 == iterator && arg2 == Value{} && len(arg3) == 4 && numIdx(arg3[2], index) && is(arg3[3], Value) && arg3[3].(Value) == this
+
+// Object.assign: undefined and null targets are a TypeError, any other target is converted
+// with ToObject first - no operation is ever applied to a missing target object.
+// Number.prototype.toLocaleString never uses the panicking tag parser.
+//@ func builtinObjectAssign
+//@   props C02
+//@   nosafety
+//@   requires wfCall(call) && argsOK(call.ArgumentList) && call.runtime != nil
+//@   stable call.ArgumentList
+//@   abstract_callee (Value).string, (*object).put
+//@   calls (*runtime).toObject(_, call.ArgumentList[0]) whenret true
+//@   nocall (*runtime).toObject(_, _) when len(call.ArgumentList) >= 1 && (call.ArgumentList[0].kind == valueUndefined || call.ArgumentList[0].kind == valueNull)
+//@ func builtinNumberToLocaleString
+//@   props C02 C06
+//@   nosafety
+//@   requires wfCall(call) && argsOK(call.ArgumentList) && call.runtime != nil
+//@   stable call.ArgumentList
+//@   nocall golang.org/x/text/language.MustParse(_)
